@@ -5,6 +5,6 @@ CONSTANTS
   XT = {"Tda", "Tp"}
   MaxMut = 4
   MaxRead = 3
-CONSTANT XU <- URIs4
+CONSTANT XU <- URIs3
 INVARIANTS TypeOK Linearizable BoundInWindow GensDistinct NeverServedByUnregistered ExactBeatsTemplates ExactServesOwnURI
 CHECK_DEADLOCK FALSE
